@@ -91,8 +91,9 @@ def run(ctx):
         g = prog.funcs.get(f"{m.name}.write_input")
         if g is not None:
             entries.append((g, {g.posparams[1]}))
-    for q in ("iodata.inputs.common.write_input_base", "iodata.inputs.common.populate_fields"):
-        g = prog.funcs.get(q)
+    from .c19_semantics import input_base
+
+    for g in (input_base(prog), prog.funcs.get("iodata.inputs.common.populate_fields")):
         if g is not None:
             roots = {p for p in g.posparams if p == "data"}
             if roots:
